@@ -327,44 +327,91 @@ func c11key(p *Program, r *Report, rule string) {
 	}
 	p.forAllPaths(r, rule, fn, "base64(SHA-1(key ‖ GUID))", Opts{},
 		"secWebSocketAccept feeds a fresh SHA-1 with the key and then the GUID (nothing else, in that order) and returns the standard base64 encoding of Sum(nil)", func(pa *Path) (bool, string) {
-			nw := pa.Calls("sha1.New")
-			if len(nw) != 1 {
-				return false, "no sha1.New()"
-			}
-			h := nw[0].Res.Key()
-			norm := func(a AV) string {
-				a = stripConvAll(a)
-				return a.Key()
+			const rfcGUID = "258EAFA5-E914-47DA-95CA-C5AB0DC85B11"
+			// what is hashed, as a sequence of pieces: the GUID may be the package's byte-slice variable or a string constant
+			piece := func(a AV) []string {
+				var out []string
+				var flat func(a AV)
+				flat = func(a AV) {
+					a = stripConvAll(a)
+					if e, ok := a.(*Expr); ok && e.Op == "binop" && e.Name == "+" && len(e.Args) == 2 {
+						flat(e.Args[0])
+						flat(e.Args[1])
+						return
+					}
+					if s, ok := avStr(a); ok {
+						out = append(out, "const:"+s)
+						return
+					}
+					out = append(out, a.Key())
+				}
+				flat(a)
+				return out
 			}
 			var feeds []string
-			var sum *Event
-			for _, e := range pa.Events {
-				if e.Kind != "call" {
-					continue
+			var digest string // key of the value that holds the digest bytes handed to the encoder
+			if nw := pa.Calls("sha1.New"); len(nw) == 1 {
+				h := nw[0].Res.Key()
+				var sum *Event
+				for _, e := range pa.Events {
+					if e.Kind != "call" {
+						continue
+					}
+					switch {
+					case e.Callee == "invoke hash.Hash.Write" && argKey(e, 0) == h:
+						feeds = append(feeds, piece(e.Args[1])...)
+					case (e.Callee == "io.WriteString" || e.Callee == "invoke io.Writer.Write") && argKey(e, 0) == h:
+						feeds = append(feeds, piece(e.Args[1])...)
+					case e.Callee == "invoke hash.Hash.Sum" && argKey(e, 0) == h:
+						sum = e
+					case e.Callee == "invoke hash.Hash.Reset":
+						return false, "hash reset"
+					}
 				}
-				switch {
-				case e.Callee == "invoke hash.Hash.Write" && argKey(e, 0) == h:
-					feeds = append(feeds, norm(e.Args[1]))
-				case (e.Callee == "io.WriteString" || e.Callee == "invoke io.Writer.Write") && argKey(e, 0) == h:
-					feeds = append(feeds, norm(e.Args[1]))
-				case e.Callee == "invoke hash.Hash.Sum" && argKey(e, 0) == h:
-					sum = e
-				case e.Callee == "invoke hash.Hash.Reset":
-					return false, "hash reset"
+				if sum == nil || argKey(sum, 1) != "nil" {
+					return false, "Sum(nil) missing"
+				}
+				digest = sum.Res.Key()
+			} else if sm := pa.Calls("sha1.Sum"); len(sm) == 1 && len(pa.Calls("sha1.New")) == 0 {
+				feeds = piece(sm[0].Args[0])
+				// the [20]byte result is sliced from the local it was stored in
+				for _, e := range pa.Events {
+					if e.Kind == "store" && e.Val.Key() == sm[0].Res.Key() && isLocalAllocKey(e.AddrK) {
+						digest = "slice(&" + e.AddrK + ",_,_,_)"
+					}
+				}
+			} else {
+				return false, "no single SHA-1 computation (sha1.New … Sum(nil), or sha1.Sum)"
+			}
+			for i, f := range feeds {
+				if f == "G:websocket.keyGUID" || f == "const:"+rfcGUID {
+					feeds[i] = "GUID"
 				}
 			}
-			if strings.Join(feeds, " ; ") != "param:secWebSocketKey ; G:websocket.keyGUID" {
+			if strings.Join(feeds, " ; ") != "param:secWebSocketKey ; GUID" {
 				return false, "hash input sequence: " + strings.Join(feeds, " ; ")
 			}
-			if sum == nil || argKey(sum, 1) != "nil" {
-				return false, "Sum(nil) missing"
-			}
 			enc := pa.Calls("(*base64.Encoding).EncodeToString")
-			if len(enc) != 1 || argKey(enc[0], 0) != "G:base64.StdEncoding" || argKey(enc[0], 1) != sum.Res.Key() || pa.Ret[0].Key() != enc[0].Res.Key() {
-				return false, "result is not StdEncoding(Sum(nil))"
+			if len(enc) != 1 || argKey(enc[0], 0) != "G:base64.StdEncoding" || digest == "" || argKey(enc[0], 1) != digest || pa.Ret[0].Key() != enc[0].Res.Key() {
+				return false, "result is not StdEncoding(SHA-1 digest)"
 			}
 			return true, ""
 		})
+	// the GUID: a byte-slice variable initialised once and never written, or a constant
+	if _, isConst := p.member("keyGUID").(*ssa.NamedConst); isConst {
+		c := p.member("keyGUID").(*ssa.NamedConst)
+		s := ""
+		if c.Value.Value.Kind() == constant.String {
+			s = constant.StringVal(c.Value.Value)
+		}
+		r.Exists(rule, "accept.go", "keyGUID", "-", s == "258EAFA5-E914-47DA-95CA-C5AB0DC85B11", "keyGUID is the RFC 6455 GUID 258EAFA5-E914-47DA-95CA-C5AB0DC85B11", s)
+		return
+	}
+	if p.member("keyGUID") == nil {
+		// no named GUID: the constant is checked where it is hashed (above)
+		r.Exists(rule, "accept.go", "keyGUID", "-", true, "the RFC 6455 GUID 258EAFA5-E914-47DA-95CA-C5AB0DC85B11 is hashed as a literal (checked at the hash input)", "literal")
+		return
+	}
 	guid, ok := globalInitString(p, "keyGUID")
 	r.Exists(rule, "accept.go", "keyGUID", "-", ok && guid == "258EAFA5-E914-47DA-95CA-C5AB0DC85B11", "keyGUID is the RFC 6455 GUID 258EAFA5-E914-47DA-95CA-C5AB0DC85B11", guid)
 	// keyGUID is never written elsewhere (the slice header or its elements)
@@ -444,7 +491,8 @@ func runC12(p *Program, r *Report) {
 	fn := p.Func("authenticateOrigin")
 	if fn != nil {
 		pos := p.FuncPos(fn)
-		succ, other, ok := exploreClasses(p, r, "C12.auth", fn, Opts{}, func(pa *Path) bool {
+		// the pattern helper is looked through, so that the rows read the same whether it exists or was inlined
+		succ, other, ok := exploreClasses(p, r, "C12.auth", fn, Opts{Inline: p.inlineSet("match")}, func(pa *Path) bool {
 			return pa.End == "return" && nilness(pa.Ret[0], pa) == -1
 		})
 		if ok {
@@ -454,7 +502,7 @@ func runC12(p *Program, r *Report) {
 				{`(` + origin + ` == "")=true`},
 				{`(` + origin + ` == "")=false`, parsed, `strings.EqualFold(Request.Host,URL.Host)=true`},
 				{`(` + origin + ` == "")=false`, parsed, `strings.EqualFold(Request.Host,URL.Host)=false`, `(len(param:originHosts) > 0)=true`,
-					`(match(elem(param:originHosts)[0],URL.Host)#1 == nil)=true`, `match(elem(param:originHosts)[0],URL.Host)#0=true`},
+					`(filepath.Match(strings.ToLower(elem(param:originHosts)[0]),strings.ToLower(URL.Host))#1 == nil)=true`, `filepath.Match(strings.ToLower(elem(param:originHosts)[0]),strings.ToLower(URL.Host))#0=true`},
 			}
 			seen := map[int]bool{}
 			for _, s := range succ {
@@ -503,7 +551,7 @@ func runC12(p *Program, r *Report) {
 			r.Check("C12.auth", "authenticateOrigin", "URL provenance", pos, nURL == 1, "the URL whose Host is compared is the result of url.Parse(Origin header) and nothing else", fmt.Sprintf("url values: %d", nURL))
 		}
 	}
-	if fn := p.Func("match"); fn != nil {
+	if fn := p.FuncOpt("match"); fn != nil { // optional: C12.auth reads through it
 		p.forAllPaths(r, "C12.match", fn, "whole-string, case-insensitive", Opts{}, "match(pattern, s) = filepath.Match(strings.ToLower(pattern), strings.ToLower(s))", func(pa *Path) (bool, string) {
 			fm := pa.Calls("filepath.Match")
 			if len(fm) != 1 {
